@@ -50,7 +50,9 @@ SKIP_FUNCS = ("check", "__repr__", "__str__", "_repr_", "plot", "draw",
               "to_quimb", "from_quimb", "PEPS", "MPS", "TN_", "PEPO", "MPO",
               # need quimb, which is not installed in this sandbox
               "tfim_local_array", "ham_tfim_from_edges",
-              "ham_heisenberg_from_edges")
+              "ham_heisenberg_from_edges",
+              # needs pyblock3, not installed either
+              "to_pyblock3")
 # comparison / operator swaps
 CMP = {ast.Lt: "<=", ast.LtE: "<", ast.Gt: ">=", ast.GtE: ">", ast.Eq: "!=",
        ast.NotEq: "==", ast.In: "not in", ast.NotIn: "in", ast.Is: "is not",
